@@ -15,7 +15,10 @@ FOCUS = ("a MULTI-STEP sequence of operations on one object (state carried from 
          "look fine alone (e.g. a helper changed in one file and a caller relying on the old behaviour in another), an interaction between two features / attributes / type parameters / "
          "nesting levels that only appears in combination, a dependence on the amount or shape of data seen earlier in the same document or on the same thread, a rarely used public entry "
          "point (a second API for the same thing, an iterator adaptor, a `_with` variant, a constructor variant, a trait impl for an uncommon std type or for a reference / smart pointer), "
-         "a different cargo feature configuration, or an arithmetic edge that needs a particular magnitude AND a particular position in the data")
+         "a different cargo feature configuration, an arithmetic edge that needs a particular magnitude AND a particular position in the data, "
+         "a rarely used attribute / option / trait method of the public API in combination with an ordinary one, a generic parameter instantiated with an unusual "
+         "but legal type (zero-sized, a reference, a wrapper, a type with a lifetime), or behaviour that only shows when an object is used AGAIN after an error, "
+         "a cancellation, a partial iteration or a reconfiguration (set_* / into_parts / with_* / probe / set_position)")
 for i in ids:
     p = props[i]
     wt = f"/tmp/wt{tag}/{i}"
